@@ -21,7 +21,7 @@
    iterators. *)
 From Coq Require Import ZArith List NArith Bool.
 Require Import Verif.gen.Consts_map Verif.MapSpec Verif.MapHashModel Verif.MapSkipModel Verif.MapRefModel
-  Verif.MapRefProofs Verif.MapHashProofs Verif.MapHashProofs2 Verif.MapHashProofs3 Verif.MapHashProofs4 Verif.MapSkipProofs.
+  Verif.MapRefProofs Verif.MapHashProofs Verif.MapHashProofs2 Verif.MapHashProofs3 Verif.MapHashProofs4 Verif.MapHashProofs5 Verif.MapSkipProofs.
 Import ListNotations.
 
 (* hashtable: put a; iterator parked on a; rm a; get a (still answers 1); rm a again (succeeds, frees the node);
@@ -65,6 +65,15 @@ Theorem C18_hashtable_survivors_invariant : forall hf rc m ops s,
   h_state_after v_fixed hf rc (h_create m) ops = Ok s -> h_iters s = [] -> h_alive s = true -> Good hf s.
 Proof. exact hash_survivors_good. Qed.
 Print Assumptions C18_hashtable_survivors_invariant.
+
+(* HASHTABLE, "no key that was never present is returned": in ANY state of the pointer-level model, whatever
+   hashtable_iter_next returns is the key and the current value of a live cell that is not marked removed - an entry
+   that is present at that moment - and the iterator is then parked on that node *)
+Theorem C18_hashtable_returns_present : forall s hi s' hi' k x ns,
+  h_iter_next v_fixed s hi = Ok (s', hi', Some (k, x), ns) ->
+  exists id n, deref (h_heap s) id = Ok n /\ hn_removed n = false /\ hn_key n = k /\ hn_val n = x /\ hi_node hi' = Some id.
+Proof. exact iter_next_returns_present. Qed.
+Print Assumptions C18_hashtable_returns_present.
 
 (* the invariant behind it, one API call from any state that satisfies it (or from a destroyed map) *)
 Theorem C18_hashtable_invariant_step : forall hf rc s o, TopInv s ->
